@@ -1,18 +1,17 @@
-(* C14 phase 2: agreement of the two reader models on modules without blackbox instances (part B4) *)
+(* C14 phase 2: agreement of the two reader models on the documented subset (part B4) *)
 From stdpp Require Import strings gmap sets pretty.
 From CG Require Import Model.FastVerilog Proofs.FastVerilogProofs Gen.Gen_fastv.
-From CG Require Import Proofs.FvA0 Proofs.FvA1 Proofs.FvA2 Proofs.FvA3 Proofs.FvA4 Proofs.FvA5 Proofs.FvA6 Proofs.FvA7 Proofs.FvA8 Proofs.FvA9 Proofs.FvA10 Proofs.FvB1 Proofs.FvB2 Proofs.FvB3.
+From CG Require Import Proofs.FvA0 Proofs.FvA1 Proofs.FvA2 Proofs.FvP1 Proofs.FvE1 Proofs.FvE2 Proofs.FvE3 Proofs.FvE4 Proofs.FvA3 Proofs.FvE5 Proofs.FvE6 Proofs.FvE7 Proofs.FvA4 Proofs.FvA5 Proofs.FvA6 Proofs.FvA7 Proofs.FvA8 Proofs.FvA9 Proofs.FvA10 Proofs.FvB1 Proofs.FvB2 Proofs.FvB3.
 Open Scope string_scope.
 
 Section fastchar.
   Variables (a : ast) (bbs : list bbdef).
   Hypothesis Hsub : in_subset a bbs = true.
-  Hypothesis Hni : no_inst a = true.
   Let HF := in_subset_facts a bbs Hsub.
   Let t0 := kt0 a. Let t1 := kt1 a.
-  Let SS := sF t0 t1 a.
-  Let adds := ((a_items a ≫= gadd t0 t1) ++ (a_items a ≫= aadd t0 t1))%list.
-  Let edges := ((a_items a ≫= gedge t0 t1) ++ (a_items a ≫= aedge t0 t1))%list.
+  Let SS := sF t0 t1 bbs a.
+  Let adds := ((a_items a ≫= gadd' t0 t1 bbs) ++ (a_items a ≫= aadd t0 t1))%list.
+  Let edges := ((a_items a ≫= gedge' t0 t1 bbs) ++ (a_items a ≫= aedge t0 t1))%list.
 
   Lemma fast_fresh : t0 ∉ idents a ∧ t1 ∉ idents a.
   Proof. split; apply tie_name_fresh. Qed.
@@ -30,6 +29,8 @@ Section fastchar.
 
   Lemma sI_S : sI SS = list_to_set (decl_inputs a).
   Proof. unfold SS, sF. rewrite stp_fold_I, (inputs_eq a). cbn [sI s0]. set_solver. Qed.
+  Let Hfg := fgood_of a bbs Hsub.
+  Let Hfr3 : t0 ∉ idents a ∧ t1 ∉ idents a ∧ t1 ∉ idents a := conj (proj1 fast_fresh) (conj (proj2 fast_fresh) (proj2 fast_fresh)).
 
   Definition fg0 : circuit := foldl (λ g n, <[n := mk_node Input false ∅]> g) ∅ (decl_inputs a).
   Definition fgt : circuit := <[t1 := mk_node C1 false ∅]> (<[t0 := mk_node C0 false ∅]> fg0).
@@ -42,38 +43,57 @@ Section fastchar.
     - apply (foldl_insert_last (λ n : string, n) (λ _, mk_node Input false ∅)); [eauto|done].
     - rewrite (foldl_insert_other (λ n : string, n) (λ _, mk_node Input false ∅)) by (by rewrite list_fmap_id). apply lookup_empty.
   Qed.
-  Lemma view_G it o v : it ∈ a_items a → gate_view t0 t1 it = Some (o, v) → sG SS !! o = Some v.
-  Proof. intros. apply (G_iff a bbs Hsub Hni). eauto. Qed.
-  Lemma not_driver_tie m : m ∉ idents a → sG SS !! m = None.
+  Lemma view_G it o v : it ∈ a_items a → (o, v) ∈ views t0 t1 bbs it → sG SS !! o = Some v.
+  Proof. intros. apply (G_iff a bbs Hsub t0 t1 fast_fresh). eauto. Qed.
+  Lemma not_driver_tie m : m ∉ idents a → dotted m = false → sG SS !! m = None.
   Proof.
-    intros Hm. destruct (sG SS !! m) as [v|] eqn:E; [|done]. apply (G_iff a bbs Hsub Hni) in E as (it & Hit & Hv).
-    destruct (driver_ident a bbs Hsub Hni t0 t1 it m v Hit Hv). done.
+    intros Hm Hd. destruct (sG SS !! m) as [v|] eqn:E; [|done]. destruct (G_key a bbs Hsub t0 t1 fast_fresh m v E) as [_ [?|?]]; congruence.
   Qed.
+  Lemma fast_nodot : dotted t0 = false ∧ dotted t1 = false.
+  Proof. split; apply tie_name_not_dotted; by vm_compute. Qed.
   Lemma fg2_lookup m : fg2 !! m = match sG SS !! m with Some (t, _) => Some (mk_node t false ∅) | None => fgt !! m end.
   Proof.
     unfold fg2. destruct (sG SS !! m) as [[t fis]|] eqn:E.
     - apply (foldl_insert_last snd (λ p, mk_node p.1 false ∅)).
-      + exists (t, m). split; [|done]. apply (proj2 (grouped_elem _ _)). apply (adds_elem t0 t1). apply (G_iff a bbs Hsub Hni) in E as (it & Hit & Hv). eauto.
-      + intros [t' m'] Hp Hm'. simpl in Hm'. subst m'. apply (proj1 (grouped_elem _ _)) in Hp. apply (adds_elem t0 t1) in Hp as (it & fis' & Hit & Hv).
+      + exists (t, m). split; [|done]. apply (proj2 (grouped_elem _ _)). apply (adds_elem t0 t1 bbs _ _ _ Hfg). apply (G_iff a bbs Hsub t0 t1 fast_fresh) in E as (it & Hit & Hv). eauto.
+      + intros [t' m'] Hp Hm'. simpl in Hm'. subst m'. apply (proj1 (grouped_elem _ _)) in Hp. apply (adds_elem t0 t1 bbs _ _ _ Hfg) in Hp as (it & fis' & Hit & Hv).
         rewrite (view_G it m _ Hit Hv) in E. by injection E as ->.
     - apply (foldl_insert_other snd (λ p, mk_node p.1 false ∅)). intros Hin. apply elem_of_list_fmap in Hin as ([t' m'] & Hm' & Hp). simpl in Hm'. subst m'.
-      apply (proj1 (grouped_elem _ _)) in Hp. apply (adds_elem t0 t1) in Hp as (it & fis' & Hit & Hv). by rewrite (view_G it m _ Hit Hv) in E.
+      apply (proj1 (grouped_elem _ _)) in Hp. apply (adds_elem t0 t1 bbs _ _ _ Hfg) in Hp as (it & fis' & Hit & Hv). by rewrite (view_G it m _ Hit Hv) in E.
   Qed.
   Lemma fgt_lookup m : fgt !! m = if decide (m = t1) then Some (mk_node C1 false ∅) else if decide (m = t0) then Some (mk_node C0 false ∅) else fg0 !! m.
   Proof. unfold fgt. destruct (decide (m = t1)) as [->|]; [by rewrite lookup_insert|]. rewrite lookup_insert_ne by done.
          destruct (decide (m = t0)) as [->|]; [by rewrite lookup_insert|]. by rewrite lookup_insert_ne. Qed.
 
+  Lemma edge_source it v t fis u : it ∈ a_items a → (v, (t, fis)) ∈ views t0 t1 bbs it → u ∈ fis →
+    (∃ v', (u, v') ∈ views t0 t1 bbs it) ∨ u = t0 ∨ u = t1 ∨ u ∈ item_uses bbs it.
+  Proof.
+    intros Hit Hv Hu. destruct it as [ns|ns|ns|t' inst ops|l r|bb inst conns]; try (cbn [FvA3.views FvA3.gate_view] in Hv; by apply elem_of_nil in Hv).
+    - right. apply (uses_sub a bbs t0 t1 t1 HF Hfr3 _ u Hit). cbn [FvA3.uses]. cbn [FvA3.views] in Hv. destruct (FvA3.gate_view t0 t1 _) as [[o' [t'' fis']]|]; [|by apply elem_of_nil in Hv].
+      apply elem_of_list_singleton in Hv. by injection Hv as <- <- <-.
+    - right. apply (uses_sub a bbs t0 t1 t1 HF Hfr3 _ u Hit). cbn [FvA3.uses]. cbn [FvA3.views] in Hv. destruct (FvA3.gate_view t0 t1 _) as [[o' [t'' fis']]|]; [|by apply elem_of_nil in Hv].
+      apply elem_of_list_singleton in Hv. by injection Hv as <- <- <-.
+    - cbn [FvA3.views] in Hv |- *. destruct (find_bb_first bbs bb) as [d|] eqn:Hf; [|by apply elem_of_nil in Hv]. unfold FvA3.inst_views in Hv |- *. apply elem_of_app in Hv as [Hv|Hv].
+      + apply elem_of_list_fmap in Hv as ([p t''] & [= -> -> ->] & Hpt). cbn [fst] in Hu. right.
+        apply (uses_sub a bbs t0 t1 t1 HF Hfr3 _ u Hit). cbn [FvA3.uses]. rewrite Hf.
+        apply elem_of_list_fmap in Hu as ([p' n] & -> & [[Heq Hpi] Hin]%elem_of_list_filter). apply elem_of_list_fmap. exists (p', n). split; [done|]. by apply elem_of_list_filter.
+      + apply elem_of_list_fmap in Hv as ([p n] & [= -> -> ->] & [Hpi Hin]%elem_of_list_filter). apply elem_of_list_singleton in Hu as ->. left.
+        destruct (fgood_of a bbs Hsub _ Hit) as (d' & Hf' & Hdisj & Hc). rewrite Hf in Hf'. injection Hf' as <-.
+        apply conn_dict_elem in Hin as (o & Hin & _). destruct (Hc p (Some o) Hin) as [[Hp|Hp] _]; [done|].
+        eexists. apply elem_of_app. left. apply elem_of_list_fmap. exists (p, BbOut). split; [done|]. apply pin_list_elem. auto.
+  Qed.
   Lemma edges_dom e : e ∈ edges → e.1 ∈ dom fg2 ∧ e.2 ∈ dom fg2.
   Proof.
-    destruct e as [u v]. intros He. apply (edges_elem t0 t1) in He as (it & t & fis & Hit & Hv & Hu). cbn [fst snd]. split.
-    - assert (Huu : u ∈ it_uses t0 t1 it) by (unfold it_uses; by rewrite Hv).
-      apply elem_of_dom. rewrite fg2_lookup. destruct (sG SS !! u) as [[??]|] eqn:E; [eauto|]. rewrite fgt_lookup.
+    destruct e as [u v]. intros He. apply (edges_elem t0 t1 bbs _ _ _ Hfg) in He as (it & t & fis & Hit & Hv & Hu). cbn [fst snd]. split.
+    - apply elem_of_dom. rewrite fg2_lookup. destruct (sG SS !! u) as [[??]|] eqn:E; [eauto|]. rewrite fgt_lookup.
       destruct (decide (u = t1)); [eauto|]. destruct (decide (u = t0)); [eauto|].
-      destruct (uses_sub a bbs t0 t1 HF Hni it u Hit Huu) as [?|[?|Hiu]]; [done|done|].
+      (* u is an operand of the entry: a pin of the same instance, a tie, or a used net *)
+      destruct (edge_source it v t fis u Hit Hv Hu) as [Hk|[?|[?|Hiu]]]; [|done|done|].
+      { destruct Hk as (v' & Hv'). by rewrite (view_G it u v' Hit Hv') in E. }
       destruct (sf_uses a bbs HF u) as [Hd|Hi]; [apply elem_of_list_bind; eauto| |].
-      + rewrite (drivers_eq a bbs t0 t1) in Hd by done. apply elem_of_list_bind in Hd as (it' & Hd & Hit').
-        unfold it_driver in Hd. destruct (gate_view t0 t1 it') as [[o' v']|] eqn:Ev; [|by apply elem_of_nil in Hd].
-        apply elem_of_list_singleton in Hd as ->. by rewrite (view_G it' o' v' Hit' Ev) in E.
+      + apply elem_of_list_bind in Hd as (it' & Hd & Hit').
+        pose proof (drivers_sub a bbs t0 t1 t1 HF Hfr3 it' u Hit' Hd) as Hk. unfold it_driver in Hk. apply elem_of_list_fmap in Hk as ([o' v'] & Heq & Hv'). simpl in Heq. subst o'.
+        by rewrite (view_G it' u v' Hit' Hv') in E.
       + rewrite fg0_lookup, decide_True by done. eauto.
     - apply elem_of_dom. rewrite fg2_lookup, (view_G it v _ Hit Hv). eauto.
   Qed.
@@ -84,19 +104,19 @@ Section fastchar.
     destruct fast_fresh as [Hf0 Hf1].
     assert (Hnoedge : sG SS !! m = None → drivers_of edges m = ∅).
     { intros HG. apply set_eq. intros u. rewrite elem_of_drivers_of. split; [|set_solver]. intros He.
-      apply (edges_elem t0 t1) in He as (it & t & fis & Hit & Hv & Hu). by rewrite (view_G it m _ Hit Hv) in HG. }
+      apply (edges_elem t0 t1 bbs _ _ _ Hfg) in He as (it & t & fis & Hit & Hv & Hu). by rewrite (view_G it m _ Hit Hv) in HG. }
     destruct (decide (m = t0)) as [->|Hm0].
-    { rewrite (not_driver_tie t0 Hf0) in *. rewrite fgt_lookup. rewrite decide_False by apply fast_ne. rewrite decide_True by done.
+    { rewrite (not_driver_tie t0 Hf0 (proj1 fast_nodot)) in *. rewrite fgt_lookup. rewrite decide_False by apply fast_ne. rewrite decide_True by done.
       simpl. rewrite Hnoedge by done. unfold upd_fi, mk_node. simpl. do 2 f_equal. set_solver. }
     destruct (decide (m = t1)) as [->|Hm1].
-    { rewrite (not_driver_tie t1 Hf1) in *. rewrite fgt_lookup. rewrite decide_True by done.
+    { rewrite (not_driver_tie t1 Hf1 (proj2 fast_nodot)) in *. rewrite fgt_lookup. rewrite decide_True by done.
       simpl. rewrite Hnoedge by done. unfold upd_fi, mk_node. simpl. do 2 f_equal. set_solver. }
     destruct (sG SS !! m) as [[t fis]|] eqn:E.
     - simpl. unfold upd_fi, mk_node. simpl. do 2 f_equal. apply set_eq. intros u. rewrite elem_of_union, elem_of_drivers_of, elem_of_list_to_set.
       split.
-      + intros [?|He]; [set_solver|]. apply (edges_elem t0 t1) in He as (it & t' & fis' & Hit & Hv & Hu).
+      + intros [?|He]; [set_solver|]. apply (edges_elem t0 t1 bbs _ _ _ Hfg) in He as (it & t' & fis' & Hit & Hv & Hu).
         rewrite (view_G it m _ Hit Hv) in E. by injection E as _ ->.
-      + intros Hu. right. apply (edges_elem t0 t1). apply (G_iff a bbs Hsub Hni) in E as (it & Hit & Hv). eauto 7.
+      + intros Hu. right. apply (edges_elem t0 t1 bbs _ _ _ Hfg). apply (G_iff a bbs Hsub t0 t1 fast_fresh) in E as (it & Hit & Hv). eauto 7.
     - rewrite fgt_lookup, decide_False, decide_False, fg0_lookup by done. rewrite sI_S.
       destruct (decide (m ∈ decl_inputs a)).
       + rewrite decide_True by (by apply elem_of_list_to_set). simpl. rewrite Hnoedge by done. unfold upd_fi, mk_node. simpl. do 2 f_equal. set_solver.
